@@ -201,3 +201,18 @@ def equivalent(
             r["__oracle"] = bool(oracle(a))
             bad.append(r)
     return len(rows), bad
+
+
+def k_is(a: str, b: str) -> str:
+    """Canonical key of `a is b` (operands sorted, as canon_cmp does)."""
+    x, y = sorted((a, b))
+    return f"is({x},{y})"
+
+
+def k_eq(a: str, b: str) -> str:
+    x, y = sorted((a, b))
+    return f"eq({x},{y})"
+
+
+def k_none(a: str) -> str:
+    return k_is("None", a)
